@@ -167,12 +167,9 @@ class Fn:
                 walk(ch)
 
         if self.is_lambda:
-            out.append(self.node.body)
-            walk(self.node.body)
+            walk(ast.Expr(self.node.body))
         else:
-            for st in self.node.body:
-                out.append(st)
-                walk(st)
+            walk(ast.Module(body=list(self.node.body), type_ignores=[]))
         return out
 
     def calls(self) -> List[ast.Call]:
